@@ -3,6 +3,8 @@
 import CosetProofs.Ties.ContextRouting
 import CosetProofs.Ties.HeaderFields
 import CosetProofs.Ties.Budget.Sign
+import CosetProofs.Ties.Compare.Header
+import CosetProofs.Ties.Compare.Sign
 namespace Coset.Props.C03
 
 /-! ### ties to the source text (regenerated on every run, compared in the kernel with the transcribed tree) -/
@@ -18,5 +20,12 @@ theorem tie_header_is_empty : Coset.Gen.headerFields = Coset.Pinned.headerFields
 theorem tie_budget_sign : Coset.Ties.budgetCovered "sign" Coset.Gen.decisionBudget Coset.Pinned.decisionBudget = true := Coset.Ties.budget_sign
 
 #print axioms tie_budget_sign
+
+/-! comparisons and integer literals of the modules this property is anchored in (properties.jsonl): none beyond the transcribed tree's -/
+theorem tie_compare_header : Coset.Ties.compareCovered "header" Coset.Gen.decisionBudget Coset.Pinned.decisionBudget = true := Coset.Ties.compare_header
+theorem tie_compare_sign : Coset.Ties.compareCovered "sign" Coset.Gen.decisionBudget Coset.Pinned.decisionBudget = true := Coset.Ties.compare_sign
+
+#print axioms tie_compare_header
+#print axioms tie_compare_sign
 
 end Coset.Props.C03
